@@ -143,7 +143,10 @@ def compiled_family(prop, tier, seed):
             where[len(lines) + 1] = (i, "R"); lines.append(r)
         lines.append("pub fn cases() -> Vec<(usize, fn() -> String, fn() -> String)> { vec![" + ", ".join(f"({i}, m{i} as fn() -> String, r{i} as fn() -> String)" for i in sorted(cases)) + "] }")
         open(gen_path, "w").write("\n".join(lines) + "\n")
-        rc, out = P.sh(["cargo", "build", "--offline", "--quiet", "--bin", binname], cwd=CRATE, timeout=3600)
+        rc, out = P.sh(["cargo", "build", "--offline", "--quiet", "--bin", binname], cwd=CRATE, timeout=300 if tier == "quick" else 3600)
+        if rc == 124:
+            problems.append(f"compiled family: rustc did not finish compiling the generated {kind} sentences ({out[:120]}) — a proc macro that does not terminate?")
+            break
         if rc == 0:
             built = True
             break
@@ -163,11 +166,12 @@ def compiled_family(prop, tier, seed):
         problems.append(f"compiled family: {hist['compiled-dropped']} of {len(cases) + hist['compiled-dropped']} cases do not compile")
     checked = 0
     if built:
-        p = subprocess.run([os.path.join(CRATE, "target", "debug", binname)], stdout=subprocess.PIPE, stderr=subprocess.PIPE, text=True, env=P.ENV)
+        rc, pout = P.sh([os.path.join(CRATE, "target", "debug", binname)], timeout=300 if tier == "quick" else 3600)
+        if rc == 124: problems.append("compiled family: the compiled cases did not finish running")
         res = {}
-        for line in p.stdout.split("\n"):
+        for line in pout.split("\n"):
             w = line.split(" ", 2)
-            if len(w) == 3: res[(int(w[0]), w[1])] = w[2]
+            if len(w) == 3 and w[0].isdigit() and w[1] in ("M", "R"): res[(int(w[0]), w[1])] = w[2]
         for i in sorted(cases):
             a, b = res.get((i, "M")), res.get((i, "R"))
             if a is None or b is None:
